@@ -681,19 +681,3 @@ fn c01_bmc_api_l3() { bmc_api::<3>() }
 // per-range instantiations selected by the runner
 include!(concat!(env!("CARGO_MANIFEST_DIR"), "/verif_gen/gen_pairs.rs"));
 
-// fixed instantiations used for calibration and the quick tier
-#[kani::proof]
-#[kani::unwind(66)]
-fn c01_step_3_6() { step_byte(3, 6) }
-#[kani::proof]
-#[kani::unwind(66)]
-fn c01_step_0_1() { step_byte(0, 1) }
-#[kani::proof]
-#[kani::unwind(66)]
-fn c01_step_29_31() { step_byte(29, 31) }
-#[kani::proof]
-#[kani::unwind(66)]
-fn c01_digest_trunc_3_6() { digest_trunc(3, 6) }
-#[kani::proof]
-#[kani::unwind(66)]
-fn c01_digest_long_3_6() { digest_long(3, 6) }
